@@ -17,7 +17,7 @@ PKGS = ["bn254", "bls12_377", "bls12_381", "bls24_315", "bls24_317", "bw6_633", 
 
 HEAD = "/- INSTANTIATED by bin/mkc11open.py (one proof template for the 7 packages). DO NOT EDIT: edit the script and re-run it. -/\n"
 
-TEMPLATE = r'''import GnarkVerif.Proofs.KzgOpenGen
+TEMPLATE = r'''import GnarkVerif.Proofs.KzgBatchGen
 import GnarkVerif.Gen.Imp.KzgOpen_PKG
 import GnarkVerif.Props.C11_gen_PKG
 import GnarkVerif.Props.C11
@@ -155,6 +155,112 @@ theorem C11open_PKG_size_errors (msm : List G → List F → G)
 
 end Abstract
 
+/-! ### BatchOpenSinglePoint: the generated loops are the package-independent reference loops of Proofs/KzgBatchGen.lean -/
+section Batch
+variable {F G : Type} (zero : F) (add sub mul : F → F → F) (gzero : G)
+  (multiExp : G → List G → List F → KzgOpen_PKG.MultiExpConfig → G × GoImp.Err)
+  (deriveGamma : F → List G → List F → Hash → List (List UInt8) → F × GoImp.Err)
+
+theorem C11open_PKG_batch_loop1 (pk : KzgOpen_PKG.ProvingKey F G) (polys : List (List F)) (L : Int) :
+    KzgOpen_PKG.BatchOpenSinglePoint.loop1 zero add sub mul gzero multiExp pk polys L =
+      ((rSizes (len pk.G1) polys L).1,
+       if (rSizes (len pk.G1) polys L).2 = true then some (⟨gzero, []⟩, KzgOpen_PKG.ErrInvalidPolynomialSize) else none) := by
+  induction polys generalizing L with
+  | nil => rfl
+  | cons p rest ih =>
+    by_cases h : (len p = 0) ∨ (len p > len pk.G1)
+    · simp only [KzgOpen_PKG.BatchOpenSinglePoint.loop1, rSizes, if_pos h, if_true]
+    · simp only [KzgOpen_PKG.BatchOpenSinglePoint.loop1, rSizes, if_neg h, ih]
+
+theorem C11open_PKG_batch_loop2 (polys : List (List F)) (point : F) (fuel : ℕ) (res : KzgOpen_PKG.BatchOpeningProof F G) (i : Int) :
+    KzgOpen_PKG.BatchOpenSinglePoint.loop2 zero add sub mul gzero multiExp polys point fuel res i =
+      (⟨res.H, (rLoop2 (fun p => KzgOpen_PKG.eval zero add sub mul gzero multiExp p point) polys fuel res.ClaimedValues i).1⟩,
+       (rLoop2 (fun p => KzgOpen_PKG.eval zero add sub mul gzero multiExp p point) polys fuel res.ClaimedValues i).2) := by
+  induction fuel generalizing res i with
+  | zero => rfl
+  | succ n ih =>
+    by_cases h : i < len polys
+    · simp only [KzgOpen_PKG.BatchOpenSinglePoint.loop2, rLoop2, if_pos h, ih]
+    · simp only [KzgOpen_PKG.BatchOpenSinglePoint.loop2, rLoop2, if_neg h]
+
+theorem C11open_PKG_batch_loop4 (polys : List (List F)) (γ : F) (fuel : ℕ) (g : List F) (i : Int) :
+    KzgOpen_PKG.BatchOpenSinglePoint.loop4 zero add sub mul gzero multiExp polys γ fuel g i = rLoop4 zero mul (len polys) γ fuel g i := by
+  induction fuel generalizing g i with
+  | zero => rfl
+  | succ n ih => simp only [KzgOpen_PKG.BatchOpenSinglePoint.loop4, rLoop4, ih]
+
+theorem C11open_PKG_batch_loop6 (polys : List (List F)) (i : Int) (gammas : List F) (e : Int) (fuel : ℕ) (fp : List F) (pj : F) (j : Int) :
+    KzgOpen_PKG.BatchOpenSinglePoint.loop6 zero add sub mul gzero multiExp polys i gammas e fuel fp pj j
+      = rLoop6 zero add mul polys i gammas e fuel fp pj j := by
+  induction fuel generalizing fp pj j with
+  | zero => rfl
+  | succ n ih => simp only [KzgOpen_PKG.BatchOpenSinglePoint.loop6, rLoop6, ih]
+
+theorem C11open_PKG_batch_loop5 (polys : List (List F)) (gammas : List F) (fuel : ℕ) (fp : List F) (i : Int) :
+    KzgOpen_PKG.BatchOpenSinglePoint.loop5 zero add sub mul gzero multiExp polys gammas fuel fp i
+      = rLoop5 zero add mul polys gammas fuel fp i := by
+  induction fuel generalizing fp i with
+  | zero => rfl
+  | succ n ih => simp only [KzgOpen_PKG.BatchOpenSinglePoint.loop5, rLoop5, ih, C11open_PKG_batch_loop6]
+
+/-- the folded evaluation `∑ᵢγⁱ·vᵢ` (the goroutine of BatchOpenSinglePoint) is the Horner loop in γ over the claimed values -/
+theorem C11open_PKG_batch_loop3 (res : KzgOpen_PKG.BatchOpeningProof F G) (γ : F) :
+    (KzgOpen_PKG.BatchOpenSinglePoint.loop3 zero add sub mul gzero multiExp res γ ((len res.ClaimedValues - 2) + 1).toNat
+      (idxD zero res.ClaimedValues (len res.ClaimedValues - 1)) (len res.ClaimedValues - 2)).1 = gEval add mul zero res.ClaimedValues γ :=
+  eval_glue add mul zero res.ClaimedValues γ (KzgOpen_PKG.BatchOpenSinglePoint.loop3 zero add sub mul gzero multiExp res γ)
+    (fun _ _ => rfl) (fun _ _ _ => rfl)
+
+/-- the generated `BatchOpenSinglePoint`, every path: digest-count error; size error (any polynomial empty or longer than the key); the claimed
+values `rVals`; the error of `deriveGamma` handed on; the quotient of the folded polynomial (`rQuotArr`) committed by the generated `Commit`
+(`H` = point at infinity when the quotient is empty) -/
+theorem C11open_PKG_batch_ref (polys : List (List F)) (digests : List G) (point : F) (hf : Hash)
+    (pk : KzgOpen_PKG.ProvingKey F G) (dt : List (List UInt8)) :
+    KzgOpen_PKG.BatchOpenSinglePoint zero add sub mul gzero multiExp deriveGamma polys digests point hf pk dt =
+      if len digests ≠ len polys then (⟨gzero, []⟩, KzgOpen_PKG.ErrInvalidNbDigests)
+      else if (rSizes (len pk.G1) polys (-1)).2 = true then (⟨gzero, []⟩, KzgOpen_PKG.ErrInvalidPolynomialSize)
+      else if (deriveGamma point digests (rVals zero (fun p => KzgOpen_PKG.eval zero add sub mul gzero multiExp p point) polys) hf dt).2 ≠ GoImp.Err.nil
+        then (⟨gzero, []⟩, (deriveGamma point digests (rVals zero (fun p => KzgOpen_PKG.eval zero add sub mul gzero multiExp p point) polys) hf dt).2)
+      else if len ((rQuotArr zero add sub mul polys (rVals zero (fun p => KzgOpen_PKG.eval zero add sub mul gzero multiExp p point) polys)
+            (deriveGamma point digests (rVals zero (fun p => KzgOpen_PKG.eval zero add sub mul gzero multiExp p point) polys) hf dt).1 point
+            (rSizes (len pk.G1) polys (-1)).1).drop 1) > 0 then
+        if (KzgOpen_PKG.Commit zero add sub mul gzero multiExp
+            ((rQuotArr zero add sub mul polys (rVals zero (fun p => KzgOpen_PKG.eval zero add sub mul gzero multiExp p point) polys)
+              (deriveGamma point digests (rVals zero (fun p => KzgOpen_PKG.eval zero add sub mul gzero multiExp p point) polys) hf dt).1 point
+              (rSizes (len pk.G1) polys (-1)).1).drop 1) pk []).2 ≠ GoImp.Err.nil
+        then (⟨gzero, []⟩, (KzgOpen_PKG.Commit zero add sub mul gzero multiExp
+            ((rQuotArr zero add sub mul polys (rVals zero (fun p => KzgOpen_PKG.eval zero add sub mul gzero multiExp p point) polys)
+              (deriveGamma point digests (rVals zero (fun p => KzgOpen_PKG.eval zero add sub mul gzero multiExp p point) polys) hf dt).1 point
+              (rSizes (len pk.G1) polys (-1)).1).drop 1) pk []).2)
+        else (⟨(KzgOpen_PKG.Commit zero add sub mul gzero multiExp
+            ((rQuotArr zero add sub mul polys (rVals zero (fun p => KzgOpen_PKG.eval zero add sub mul gzero multiExp p point) polys)
+              (deriveGamma point digests (rVals zero (fun p => KzgOpen_PKG.eval zero add sub mul gzero multiExp p point) polys) hf dt).1 point
+              (rSizes (len pk.G1) polys (-1)).1).drop 1) pk []).1,
+            rVals zero (fun p => KzgOpen_PKG.eval zero add sub mul gzero multiExp p point) polys⟩, GoImp.Err.nil)
+      else (⟨gzero, rVals zero (fun p => KzgOpen_PKG.eval zero add sub mul gzero multiExp p point) polys⟩, GoImp.Err.nil) := by
+  by_cases h1 : len digests ≠ len polys
+  · simp only [KzgOpen_PKG.BatchOpenSinglePoint, if_pos h1]
+  · have h1' : len digests = len polys := by simpa using h1
+    simp only [KzgOpen_PKG.BatchOpenSinglePoint, if_neg h1, C11open_PKG_batch_loop1]
+    by_cases h2 : (rSizes (len pk.G1) polys (-1)).2 = true
+    · simp only [if_pos h2]
+    · simp only [if_neg h2, C11open_PKG_batch_loop2, C11open_PKG_batch_loop4, C11open_PKG_batch_loop5, C11open_PKG_divide_ref]
+      have hv : (rLoop2 (fun p => KzgOpen_PKG.eval zero add sub mul gzero multiExp p point) polys (len polys - 0).toNat
+          (List.replicate (len polys).toNat zero) 0).1 = rVals zero (fun p => KzgOpen_PKG.eval zero add sub mul gzero multiExp p point) polys := rfl
+      simp only [hv]
+      generalize hvals : rVals zero (fun p => KzgOpen_PKG.eval zero add sub mul gzero multiExp p point) polys = vals
+      have hvl : len digests = len vals := by
+        rw [h1', ← hvals]; simp only [len_eq, rVals_length]
+      rcases hg : deriveGamma point digests vals hf dt with ⟨γ, e⟩
+      by_cases h3 : e ≠ GoImp.Err.nil
+      · simp only [if_pos h3]
+      · simp only [if_neg h3, hvl]
+        have h3' := C11open_PKG_batch_loop3 zero add sub mul gzero multiExp ⟨gzero, vals⟩ γ
+        simp only [] at h3'
+        rw [h3']
+        rfl
+
+end Batch
+
 /-! ### over any commutative ring: Horner and the quotient identity -/
 section Ring
 variable {R G : Type} [CommRing R] (gzero : G) (multiExp : G → List G → List R → KzgOpen_PKG.MultiExpConfig → G × GoImp.Err)
@@ -289,7 +395,7 @@ end GV.C11open
 '''
 
 THEOREMS = ["eval_ref", "divide_ref", "writes", "commit_abstract", "open_abstract", "open_constant", "size_errors", "eval_ring", "divide_ring",
-            "quotient_identity", "eval_model", "divide_model", "commit_model", "open_model", "completeness"]
+            "quotient_identity", "batch_loop3", "batch_ref", "eval_model", "divide_model", "commit_model", "open_model", "completeness"]
 
 
 def main():
